@@ -56,7 +56,7 @@ class GrpcServer:
                         tr = None
                     with _LOCK:
                         ev = {"seq": len(outer.events), "method": method, "requests": [b64(r) for r in reqs],
-                              "metadata": md, "time_remaining": tr}
+                              "metadata": md, "time_remaining": tr, "t": time.monotonic()}
                         outer.events.append(ev)
                         q = outer.scripts.get(method)
                         if q:
